@@ -204,9 +204,13 @@ def isInfix (a : List Char) : List Char → Bool
   | [] => a.isEmpty
   | ch :: r => a.isPrefixOf (ch :: r) || isInfix a r
 
-/-- `BackupManager.get_task(task_names, path) != ''` -/
+/-- truthiness of `BackupManager.get_task(task_names, path)`: the *first* task whose `task_<name>` occurs in
+the base name is returned, and an empty name is falsy (so `['', 'go']` never selects anything that
+contains `task_`). -/
 def getTask (tasks : List Name) (base : Name) : Bool :=
-  tasks.any (fun t => isInfix (['t', 'a', 's', 'k', '_'] ++ t) base)
+  match tasks.find? (fun t => isInfix (['t', 'a', 's', 'k', '_'] ++ t) base) with
+  | some t => !t.isEmpty
+  | none => false
 
 /-- The `continue` test of `restore_backup`. -/
 def picked (tasks : List Name) (f : Path) : Bool := tasks.isEmpty || getTask tasks (f.getLastD [])
